@@ -758,27 +758,28 @@ theorem bundleImport_agree (fs : Fs) (cfg : Cfg) (z : Fs) (d : Path) (i : Imp) :
   | error e => simp
   | ok q =>
     simp only
+    have fin : ∀ z0 : Fs,
+        (match (match fs.lookup q with
+          | none => (Except.error (Fail.imp Err.notFound) : Except Fail (Path × Content × Fs))
+          | some c => Except.ok (q, c, zipCreate z0 (mapPath cfg q) c)) with
+        | .ok (q', c, _) => (Except.ok q : Except Fail Path) = .ok q' ∧ fs.lookup q' = some c
+        | .error e => (Except.ok q : Except Fail Path) = .error e ∨
+            (∃ q', (Except.ok q : Except Fail Path) = .ok q' ∧ fs.lookup q' = none ∧ e = .imp .notFound)) := by
+      intro z0
+      cases hc : fs.lookup q with
+      | none => exact Or.inr ⟨q, rfl, hc, rfl⟩
+      | some c => exact ⟨rfl, hc⟩
     by_cases hdot : i.dot = true
     · simp only [hdot, if_true]
-      cases hc : fs.lookup q with
-      | none => dsimp only; exact Or.inr ⟨q, rfl, hc, rfl⟩
-      | some c => dsimp only; exact ⟨rfl, hc⟩
+      exact fin z
     · simp only [hdot, if_false]
       cases hr : findRootC fs d with
-      | none =>
-        simp only
-        cases hc : fs.lookup q with
-      | none => dsimp only; exact Or.inr ⟨q, rfl, hc, rfl⟩
-      | some c => dsimp only; exact ⟨rfl, hc⟩
+      | none => exact fin z
       | some r =>
         simp only [addModuleSentinel]
         cases hsc : fs.lookup (r ++ [sentinel]) with
         | none => exact absurd hsc (findRootC_sentinel fs d r hr)
-        | some sc =>
-          simp only
-          cases hc : fs.lookup q with
-      | none => dsimp only; exact Or.inr ⟨q, rfl, hc, rfl⟩
-      | some c => dsimp only; exact ⟨rfl, hc⟩
+        | some sc => exact fin _
 
 theorem walkKids_agree (sem : Sem) (fs : Fs) (cfg : Cfg) (recW : Fs → Path → Content → Except Fail Fs)
     (recL : Path → Content → Except Fail T) (hrec : ∀ z q c, Agree (recW z q c) (recL q c))
@@ -846,5 +847,157 @@ theorem walk_agree (sem : Sem) (fs : Fs) (cfg : Cfg) :
     cases hk : walkKids sem fs cfg (fun z' q c' => walk sem fs cfg fuel (q :: chain) z' q c') (dirOf key) chain z c.imps with
     | error e => rw [hk] at this; simp only [Agree] at this; simp [this, hk, Agree]
     | ok z3 => rw [hk] at this; obtain ⟨ts, hts⟩ := this; simp [hts, hk, Agree]
+
+/-! ## Part 7 — what SetupBundle establishes -/
+
+theorem dirOf_prefix (p : Path) : dirOf p <+: p := by
+  unfold dirOf
+  exact List.dropLast_prefix p
+
+theorem drop_dropLast (l : Path) (h : l ≠ []) : l.drop l.dropLast.length = [l.getLast h] := by
+  have e := List.dropLast_concat_getLast h
+  conv => lhs; arg 2; rw [← e]
+  rw [List.drop_left]
+
+theorem rootOk_mod (fs : Fs) (root : Path) (hsent : fs.lookup (root ++ [sentinel]) ≠ none) :
+    ∀ d r, root <+: d → findRootC fs d = some r → root <+: r := by
+  intro d r hd hr
+  obtain ⟨hrd, _, hnear⟩ := findRootUp_some _ _ _ hr
+  simp only [List.reverse_reverse] at hrd hnear
+  by_cases hlen : root.length ≤ r.length
+  · exact List.prefix_of_prefix_length_le hd hrd hlen
+  · have hrr : r <+: root := List.prefix_of_prefix_length_le hrd hd (by omega)
+    have hne : root ≠ r := fun e => hlen (by rw [e]; exact Nat.le_refl _)
+    have := hnear root hrr hd hne
+    rw [fileExists_false_iff] at this
+    exact absurd this hsent
+
+theorem rootEx_mod (fs : Fs) (root : Path) (hsent : fs.lookup (root ++ [sentinel]) ≠ none) :
+    ∀ d, root <+: d → findRootC fs d ≠ none := by
+  intro d hd hnone
+  have := findRootUp_none _ _ hnone root (by simpa using hd)
+  rw [fileExists_false_iff] at this
+  exact hsent this
+
+theorem rootOk_nomod (fs : Fs) (a : Path) (hnone : findRootC fs a = none) :
+    ∀ d r, a <+: d → findRootC fs d = some r → a <+: r := by
+  intro d r hd hr
+  obtain ⟨hrd, hsent, _⟩ := findRootUp_some _ _ _ hr
+  simp only [List.reverse_reverse] at hrd
+  by_cases hlen : a.length ≤ r.length
+  · exact List.prefix_of_prefix_length_le hd hrd hlen
+  · have hra : r <+: a := List.prefix_of_prefix_length_le hrd hd (by omega)
+    have := findRootUp_none _ _ hnone r (by simpa using hra)
+    rw [hsent] at this
+    cases this
+
+theorem parseModule_ne_nil (b name : Str) (h : parseModule b = some name) : name ≠ [] := by
+  unfold parseModule at h
+  split at h
+  · simp only at h
+    split at h
+    · rename_i hc
+      injection h with h
+      rw [← h]; exact hc.1
+    · cases h
+  · cases h
+
+theorem normal_moduleDir : Spec.Normal moduleDir := by decide
+
+/-- `SetupBundle` succeeded: the configuration and the initial archive are as the simulation needs them -/
+theorem setup_ok (fs : Fs) (main : Path) (cfg : Cfg) (z0 : Fs) (hmain : main ≠ [])
+    (h : setupBundle fs main = .ok (cfg, z0))
+    (hname : ∀ c ∈ splitSlash cfg.mainRoot, cfg.mainRoot ≠ [] → Spec.Normal c) :
+    Setup fs cfg ∧ Consistent fs cfg z0 ∧ cfg.absRoot <+: dirOf main ∧ cfg.mainFile = mapPath cfg main ∧
+      ∃ src, fs.lookup main = some src ∧ z0.lookup (mapPath cfg main) = some src := by
+  unfold setupBundle at h
+  cases hsrc : fs.lookup main with
+  | none => rw [hsrc] at h; cases h
+  | some src =>
+    rw [hsrc] at h
+    simp only at h
+    have hlast : main.getLast? = some (main.getLast hmain) := List.getLast?_eq_getLast hmain
+    cases hroot : findRootC fs (dirOf main) with
+    | none =>
+      rw [hroot] at h
+      simp only [hlast] at h
+      injection h with h
+      injection h with hcfg hz
+      subst hcfg; subst hz
+      have hmapG : ∀ cfg : Cfg, cfg.pfx = [noModuleDir] → cfg.absRoot = dirOf main →
+          mapPath cfg main = [noModuleDir] ++ [main.getLast hmain] := by
+        intro cfg h1 h2
+        simp only [mapPath, h1, h2, dirOf, drop_dropLast main hmain]
+      have hmap := hmapG ⟨[], [noModuleDir], [noModuleDir] ++ [main.getLast hmain], dirOf main⟩ rfl rfl
+      refine ⟨⟨⟨noModuleDir, [], rfl, by decide⟩, fun _ => rfl, rootOk_nomod fs _ hroot, fun hh => absurd rfl hh⟩,
+        ?_, List.prefix_refl _, hmap.symm, src, rfl, ?_⟩
+      · intro p c hm
+        rcases zipCreate_mem _ _ _ p c hm with hm | ⟨rfl, _⟩
+        · rcases zipCreate_mem _ _ _ p c hm with hm | ⟨rfl, rfl⟩
+          · cases hm
+          · exact Or.inr ⟨main, dirOf_prefix main, hmap.symm, hsrc⟩
+        · exact Or.inl rfl
+      · rw [hmap]
+        apply zipCreate_ext
+        rcases zipCreate_lookup [] ([noModuleDir] ++ [main.getLast hmain]) src with hl | ⟨d', hd', _⟩
+        · exact hl
+        · cases hd'
+    | some root =>
+      rw [hroot] at h
+      simp only at h
+      cases hsc : fs.lookup (root ++ [sentinel]) with
+      | none => rw [hsc] at h; cases h
+      | some sc =>
+        rw [hsc] at h
+        simp only at h
+        cases hpm : parseModule sc.bytes with
+        | none => rw [hpm] at h; cases h
+        | some name =>
+          rw [hpm] at h
+          simp only at h
+          injection h with h
+          injection h with hcfg hz
+          subst hcfg; subst hz
+          have hnn : name ≠ [] := parseModule_ne_nil _ _ hpm
+          have hnorm : norm true (moduleDir :: splitSlash name) = moduleDir :: splitSlash name := by
+            apply norm_normal
+            intro c hc
+            simp at hc
+            rcases hc with rfl | hc
+            · exact normal_moduleDir
+            · exact hname c hc hnn
+          have hrd : root <+: dirOf main := by
+            have := (findRootUp_some _ _ _ hroot).1
+            simpa using this
+          have hsent : fs.lookup (root ++ [sentinel]) ≠ none := by rw [hsc]; simp
+          simp only [hnorm] at *
+          refine ⟨⟨⟨moduleDir, _, rfl, by decide⟩, fun hh => absurd hh hnn, rootOk_mod fs root hsent,
+            fun _ => rootEx_mod fs root hsent⟩, ?_, hrd, rfl, src, rfl, ?_⟩
+          · intro p c hm
+            rcases zipCreate_mem _ _ _ p c hm with hm | ⟨rfl, _⟩
+            · rcases zipCreate_mem _ _ _ p c hm with hm | ⟨rfl, rfl⟩
+              · rcases zipCreate_mem _ _ _ p c hm with hm | ⟨rfl, rfl⟩
+                · cases hm
+                · refine Or.inr ⟨root ++ [sentinel], List.prefix_append _ _, ?_, hsc⟩
+                  simp [mapPath]
+              · exact Or.inr ⟨main, List.IsPrefix.trans hrd (dirOf_prefix main), rfl, hsrc⟩
+            · exact Or.inl rfl
+          · apply zipCreate_ext
+            rcases zipCreate_lookup (zipCreate [] (moduleDir :: splitSlash name ++ [sentinel]) sc)
+                (moduleDir :: splitSlash name ++ main.drop root.length) src with hl | ⟨d', hd', hl⟩
+            · exact hl
+            · -- an entry was already there: it can only be the sentinel, i.e. main is the sentinel itself
+              have hm := lookup_mem _ _ _ hd'
+              rcases zipCreate_mem _ _ _ _ _ hm with hm | ⟨he, hdsc⟩
+              · cases hm
+              · have hmain2 : main = root ++ [sentinel] := by
+                  have := List.append_cancel_left he
+                  rw [prefix_decomp (List.IsPrefix.trans hrd (dirOf_prefix main)), this]
+                have hss : sc = src := by
+                  rw [hmain2, hsc] at hsrc
+                  injection hsrc
+                rw [hdsc] at hl
+                rw [hss] at hl ⊢
+                exact hl
 
 end Arrai.C15
